@@ -122,3 +122,45 @@ func VH_C03_timeout_then_proposal(n int, rule int) {
 	}
 	_ = view1
 }
+
+// C03(c): the replica is itself the leader of the next view: it receives sync info with an
+// honest QC for B1 (any view relation to its current view), advances, proposes and votes for
+// its own proposal. Its own vote must obey the same rules.
+func VH_C03_leader_step(n int, rule int) {
+	r := VNewReplica(n, rule, hotstuff.ID(1), vsymbolic()) // replica 1 leads every view
+	w := r.W
+	q := hotstuff.QuorumSize(n)
+	gen := hotstuff.GetGenesis()
+	gqc := hotstuff.NewQuorumCert(nil, 0, gen.Hash())
+	v1 := hotstuff.View(nondetU64("v1"))
+	vassume(v1 >= 1 && v1 < 1<<40)
+	B1 := hotstuff.VMakeBlock(hotstuff.VHash(0), gen.Hash(), gqc, &clientpb.Batch{}, v1, 2)
+	w.Chain.Store(B1)
+	cur := hotstuff.View(nondetU64("current-view"))
+	vassume(cur >= 1 && cur < 1<<40)
+	r.States.VSetView(cur)
+	last0 := hotstuff.View(nondetU64("last-voted"))
+	vassume(last0 < 1<<40)
+	r.Voter.VSetLastVoted(last0)
+	r.Cmds.Add(&clientpb.Command{ClientID: 1, SequenceNumber: 1})
+	r.Sync.OnNewView(hotstuff.NewViewMsg{ID: 3, SyncInfo: hotstuff.NewSyncInfoWith(w.HonestQC(B1, q, false)), FromNetwork: true})
+	r.Drain()
+	last1 := r.Voter.VLastVoted()
+	vobserve("proposed", uint64(len(r.Comm.Proposed)))
+	vassert(last1 >= last0, "vote-history-never-decreases")
+	if r.States.View() == cur+1 {
+		vcover("advanced-as-leader")
+	}
+	for _, p := range r.Comm.Proposed {
+		vcover("own-proposal-voted")
+		b := p.Block
+		qc := b.QuorumCert()
+		vassert(b.View() > qc.View(), "own-vote-only-for-a-block-above-its-qc")
+		vassert(b.Parent() == qc.BlockHash(), "own-vote-only-for-a-block-extending-its-qc")
+		vassert(b.View() > last0, "own-vote-only-above-last-voted-view")
+		vassert(last1 == b.View(), "own-vote-recorded-in-history")
+	}
+	if len(r.Comm.Proposed) == 0 {
+		vassert(last1 == last0, "no-vote-leaves-history-unchanged")
+	}
+}
